@@ -2,7 +2,8 @@ SPEC = {
     "id": "C12",
     "level": "other",
     "sidecars": ["lru"],
-    "functions": ["ural/lru/stems.py:lru_stems_from_parsed_url"],
+    "functions": ["ural/lru/stems.py:lru_stems_from_parsed_url", "ural/lru/conversion.py:lru_to_url"],
+    "function_sidecars": {"ural/lru/conversion.py:lru_to_url": ["lru_conversion"]},
     "bounded": ["bcheck.c12"],
     "explanation": (
         "Deciding step is BOUNDED (bcheck/c12.py with the independent RFC 3986 record builder / parser bcheck/ref_url.py): for every URL of the grammar "
@@ -14,7 +15,7 @@ SPEC = {
         "result is, in this order and with nothing else, 's:'+scheme iff a scheme; 't:'+port iff the port splitter found one; the host stems (plain: the "
         "labels of the host reversed, a special host as one stem; suffix-aware: the public suffix as ONE stem, then the labels before it reversed); one "
         "'p:' stem per path segment after the leading '/', empty segments included, in order; 'q:'+query, 'f:'+fragment, 'u:'+user, 'w:'+password, each iff "
-        "present (an empty password is a password) - every component of the record ends up in exactly one place (C12), most significant first (C13). The losslessness itself goes through "
+        "present (an empty password is a password) - every component of the record ends up in exactly one place (C12), most significant first (C13). lru_to_url raises nothing on stems of the form '<tag>:<value>' (the two-target unpacking of split(':', 1) and every index read are guarded). The losslessness itself goes through "
         "urlunsplit / urlsplit and a look-ahead regex split: not decidable by the available back ends."),
     "assumptions": ["an empty '?' / '#' of the input is not demanded back (test/lru_stems_test.py pins 'site.com?' to stems without q:)",
                     "pattern.split(s) returns at least one piece; 'sep in s' => s.split(sep, 1) has two pieces"],
